@@ -1,7 +1,7 @@
 #!/bin/sh
 # tools/confirmmutant.sh <ID> <mN>   -> confirms an agent's mutant in its own scratch worktree:
 # demo passes on clean HEAD, patch applies, demo fails with patch, full test suite passes with patch.
-ID=$1; M=$2; SRC=/tmp/mut/$ID/out/$M; T=/tmp/mutrun/confirm-$ID-$M
+ID=$1; M=$2; BASE=${3:-/tmp/mut}; SRC=$BASE/$ID/out/$M; T=/tmp/mutrun/confirm-$ID-$M
 rm -rf "$T"; git -C /repo worktree prune; git -C /repo worktree add -q --detach "$T" HEAD || exit 2
 res="$ID/$M:"
 ( cd "$T" && PYTHONPATH=$T/src timeout 120 /venv/bin/python $SRC/demo.py >/tmp/mutrun/$ID-$M.clean.log 2>&1 ); c=$?
